@@ -230,6 +230,16 @@ impl Identity {
     pub(crate) fn ingredient_index(&self) -> IngredientIndex {
         self.ingredient_index
     }
+
+    /// Verification hook H1: construct an identity from its parts.
+    #[cfg(feature = "salsa_verif")]
+    pub(crate) fn verif_new(ingredient_index: IngredientIndex, hash: u64, disambiguator: u32) -> Self {
+        Identity {
+            ingredient_index,
+            hash,
+            disambiguator: Disambiguator(disambiguator),
+        }
+    }
 }
 
 /// Stores the data that (almost) uniquely identifies a tracked struct.
